@@ -117,7 +117,8 @@ InitOb ==
     drain |-> "",             \* how the probe drain ended
     timeout |-> Timeout,
     afterClose |-> 0,         \* data chunks the client sent after the target had closed completely
-    wire |-> [cs |-> 0, tr |-> 0, ts |-> 0, cr |-> 0, cpl |-> 0] ]   \* cpl: client payload (plaintext) sent
+    wire |-> [cs |-> 0, tr |-> 0, ts |-> 0, cr |-> 0, cpl |-> 0, pt |-> 0, pc |-> 0] ]
+    \* cpl: client payload (plaintext) sent; pt, pc: bytes the proxy's write system calls really handed to the target / client socket
 
 WantC == IF Planned THEN 0..MaxTok ELSE {-1}
 WantT == IF Planned THEN 0..MaxT ELSE {-1}
@@ -344,16 +345,16 @@ Dial(c) ==
 (* ------------------------------------------------------------------------ *)
 ToTarget(c, s, o, d, a) ==   \* tgtConn.Write of one decrypted chunk
   IF s.trst \/ s.tcl = "broken" THEN Step(c, [s EXCEPT !.cerr = "write", !.pa = "drain"], o, "C2T_WriteErr", d)
-  ELSE IF s.tcl = "closed" THEN Step(c, [s EXCEPT !.cnt.pt = @ + 1, !.tcl = "broken"], o, "C2T_Vanish", d)   \* accepted by the kernel, answered by RST
-  ELSE Step(c, [s EXCEPT !.cnt.pt = @ + 1], [o EXCEPT !.tlog = Append(@, d), !.wire.tr = @ + 1], a, d)
+  ELSE IF s.tcl = "closed" THEN Step(c, [s EXCEPT !.cnt.pt = @ + 1, !.tcl = "broken"], [o EXCEPT !.wire.pt = @ + 1], "C2T_Vanish", d)   \* accepted by the kernel, answered by RST
+  ELSE Step(c, [s EXCEPT !.cnt.pt = @ + 1], [o EXCEPT !.tlog = Append(@, d), !.wire.tr = @ + 1, !.wire.pt = @ + 1], a, d)
 
 \* io.Copy(tgtConn, clientConn): one chunk.  Data coalesced with the address is still in the reader (leftover)
 C2T_Left(c) ==
-  /\ st[c].pa = "copy" /\ st[c].left # <<>> /\ st[c].tpz <= 0
+  /\ st[c].pa = "copy" /\ st[c].left # <<>> /\ (st[c].tpz <= 0 \/ st[c].trst)
   /\ ToTarget(c, [st[c] EXCEPT !.left = <<>>], ob[c], Head(st[c].left), "TRecv")
 C2T_Copy(c) ==
   /\ st[c].pa = "copy" /\ st[c].left = <<>> /\ st[c].cq # <<>> /\ ~st[c].crst
-  /\ st[c].tpz <= 0 \/ Head(st[c].cq).k # "data"       \* the write of a data chunk to a target that is not reading blocks
+  /\ st[c].tpz <= 0 \/ st[c].trst \/ Head(st[c].cq).k # "data"       \* the write of a data chunk to a target that is not reading blocks
   /\ LET t == Head(st[c].cq)
          s == [st[c] EXCEPT !.cq = Tail(@), !.cnt.cp = @ + 1] IN
      IF t.k = "data" THEN ToTarget(c, s, ob[c], t.v, "TRecv")
@@ -396,7 +397,7 @@ T2C_Copy(c) ==
   /\ st[c].pc = "t2c" /\ ~st[c].trst /\ st[c].tq # <<>> /\ ~st[c].crst /\ st[c].cpz <= 0
   /\ LET d == Head(st[c].tq) IN
      Step(c, [st[c] EXCEPT !.tq = Tail(@), !.cnt.tp = @ + 1, !.cnt.pc = @ + 1],
-          [ob[c] EXCEPT !.clog = Append(@, d), !.wire.cr = @ + 1], "CRecv", d)
+          [ob[c] EXCEPT !.clog = Append(@, d), !.wire.cr = @ + 1, !.wire.pc = @ + 1], "CRecv", d)
 T2C_Eof(c) ==
   /\ st[c].pc = "t2c" /\ ~st[c].trst /\ st[c].tq = <<>> /\ st[c].tfin
   /\ Step(c, [st[c] EXCEPT !.pc = "finclient"], ob[c], "T2C_Eof", 0)
@@ -461,7 +462,7 @@ AuxBlocked(c) ==
   LET s == st[c] IN
   CASE s.pa \in {"none", "done", "send"} -> TRUE
     [] s.pa = "copy" -> \/ (s.left = <<>> /\ s.cq = <<>> /\ ~s.cfin /\ ~s.crst)
-                        \/ (s.tpz > 0 /\ (s.left # <<>> \/ (s.cq # <<>> /\ Head(s.cq).k = "data" /\ ~s.crst)))
+                        \/ (s.tpz > 0 /\ ~s.trst /\ (s.left # <<>> \/ (s.cq # <<>> /\ Head(s.cq).k = "data" /\ ~s.crst)))
     [] s.pa = "drain" -> s.cq = <<>> /\ ~s.cfin /\ ~s.crst
     [] OTHER -> FALSE
 ServeBlocked == (srv = "accept" /\ lst = "open") \/ (srv = "wait" /\ Running # {}) \/ srv = "ret"
@@ -640,6 +641,8 @@ C15_Counters(s, o) ==
      \* received-from counters never exceed what the peer wrote; sent-to counters never exceed what the peer received,
      \* unless that peer reset the connection (bytes accepted by the kernel may be dropped unread)
      /\ n[1] <= w.cs /\ n[3] <= w.ts
+     \* sent-to counters never exceed what the write system calls really handed to the sockets (whatever fails meanwhile)
+     /\ n[2] <= w.pt /\ n[4] <= w.pc
      /\ (~s.trst /\ s.tcl = "no" => n[2] <= w.tr) /\ (~Has(o.clog, -1) /\ ~s.crst => n[4] <= w.cr)
      /\ (ClosedRec(o).s = "OK" => n[1] = w.cs /\ (s.tcl = "no" => n[2] = w.tr) /\ n[3] = w.ts /\ n[4] = w.cr)
 
